@@ -8,10 +8,12 @@ CONSTANTS
     Ks = {2}
     MaxIters = {1, 2, 3}
     LCM = 60
-    Replay = FALSE
+    Replay = TRUE
 SPECIFICATION Spec
 INVARIANT FitCorrect
 INVARIANT SeedingSound
 INVARIANT Monotone
 INVARIANT Bounded
+\* every terminal state is printed (REPLAY): KMeansTrace checks that the real fits on this scope end in one of them
+INVARIANT Emit
 CHECK_DEADLOCK FALSE
